@@ -180,6 +180,54 @@ func ruleGlobals(p *Prog, r *Result) {
 			}
 		}
 	}
+	// package-level objects of library types built by a constructor (a hasher, a buffer, a random source, an
+	// encoder): they carry state from one use to the next. Immutable ones are listed.
+	immutableCtor := map[string]bool{"regexp.MustCompile": true, "regexp.Compile": true, "errors.New": true, "fmt.Errorf": true}
+	for _, sp := range p.SSAPkg {
+		if sp.Pkg == nil || !isRepoPkgPath(sp.Pkg.Path()) {
+			continue
+		}
+		init := sp.Func("init")
+		if init == nil {
+			continue
+		}
+		for _, fn := range append([]*ssa.Function{init}, allAnon(init)...) {
+			for _, b := range fn.Blocks {
+				for _, in := range b.Instrs {
+					st, ok := in.(*ssa.Store)
+					if !ok {
+						continue
+					}
+					g, ok := st.Addr.(*ssa.Global)
+					if !ok {
+						continue
+					}
+					v := st.Val
+					if mi, ok := v.(*ssa.MakeInterface); ok {
+						v = mi.X
+					}
+					call, ok := v.(*ssa.Call)
+					if !ok {
+						continue
+					}
+					sc := call.Call.StaticCallee()
+					if sc == nil || p.InRepo(sc) {
+						continue
+					}
+					name, _ := calleeFullName(&call.Call)
+					if immutableCtor[name] || (sc.Pkg != nil && sc.Pkg.Pkg.Path() == "sync") {
+						continue // sync.Once* wrappers are C09.memo's business
+					}
+					switch call.Type().Underlying().(type) {
+					case *types.Pointer, *types.Interface, *types.Map, *types.Slice, *types.Chan, *types.Signature:
+						nwrites++
+						r.Fail("C09.global", fmt.Sprintf("%s / package variable %s holds an object made by %s", shortPkg(sp.Pkg.Path()), g.Name(), name), p.InstrPos(in),
+							"a library object shared by the whole process keeps the state one evaluation leaves in it (a hasher keeps hashing, a buffer keeps its bytes): later results depend on earlier evaluations")
+					}
+				}
+			}
+		}
+	}
 	// the address of a repo variable handed to code outside the repository (pointer-receiver methods of library types)
 	for _, cs := range allCalls(p.Funcs) {
 		if isInitFunc(cs.Fn) || cs.Callee == nil || p.InRepo(cs.Callee) {
@@ -552,4 +600,51 @@ func sharedStateType(t types.Type, depth int) string {
 		}
 	}
 	return ""
+}
+
+// ruleMemoised(rule): no package-level value is a memoising wrapper (sync.OnceFunc / OnceValue / OnceValues):
+// what such a wrapper computed at its first call — the environment, a directory listing — is what every later
+// evaluation in the process gets, whatever the world looks like by then.
+func ruleMemoised(rule string) func(p *Prog, r *Result) {
+	return func(p *Prog, r *Result) {
+		n := 0
+		for _, sp := range p.SSAPkg {
+			if sp.Pkg == nil || !isRepoPkgPath(sp.Pkg.Path()) {
+				continue
+			}
+			init := sp.Func("init")
+			if init == nil {
+				continue
+			}
+			fns := append([]*ssa.Function{init}, allAnon(init)...)
+			for _, cs := range allCalls(fns) {
+				n++
+				if cs.Callee == nil {
+					continue
+				}
+				o := cs.Callee.Origin()
+				if o == nil {
+					o = cs.Callee
+				}
+				if o.Pkg == nil || o.Pkg.Pkg.Path() != "sync" || !strings.HasPrefix(o.Name(), "Once") {
+					continue
+				}
+				// which variable receives it
+				target := "a package variable"
+				if v, ok := cs.Instr.(ssa.Value); ok && v.Referrers() != nil {
+					for _, ref := range *v.Referrers() {
+						if st, ok := ref.(*ssa.Store); ok {
+							if g, ok := st.Addr.(*ssa.Global); ok {
+								target = g.Name()
+							}
+						}
+					}
+				}
+				r.Fail(rule, fmt.Sprintf("%s / %s is a sync.%s wrapper", shortPkg(sp.Pkg.Path()), target, o.Name()), p.InstrPos(cs.Instr),
+					"a value computed once per process is reused by every later evaluation: the result no longer depends only on the inputs and the environment at the time of the evaluation (a changed or unset variable keeps its first value)")
+			}
+		}
+		r.Count("package_init_calls", n)
+		r.OK(rule, "no memoising wrapper at package level", "", fmt.Sprintf("%d calls in package initialisers inspected", n))
+	}
 }
